@@ -238,6 +238,18 @@ fn run(ctx: &mut Ctx) {
         Case::new(inputs[((i / 32768 + off) as usize) % inputs.len()].clone(), cfg)
     }, &case_fn);
 
+    // small sets exhaustively (validity of the default-settings output on every set of up to 4 words
+    // of {a,b,c}^{1..3}; 5-word sets: a seeded quarter in quick, all in thorough)
+    let s5 = SmallSubsets::abc3(5);
+    let s4n = SmallSubsets::abc3(4).count();
+    let n5 = s5.count() - s4n;
+    let (step, off) = match ctx.tier {
+        Tier::Quick => (4u64, ctx.seed % 4),
+        Tier::Thorough => (1u64, 0),
+    };
+    ctx.exhaustive("abc3 subsets <=4", s4n, &|i| Case::new(s5.subset(i), Cfg::default()), &case_fn);
+    ctx.exhaustive("abc3 5-subsets", n5 / step, &|i| Case::new(s5.subset(s4n + (i * step + off).min(n5 - 1)), Cfg::default()), &case_fn);
+
     // generated, all flags free
     let total = ctx.tier.pick(60_000, 1_500_000);
     let max_ops = ctx.tier.pick(6, 12);
